@@ -14,7 +14,8 @@ def run(ctx):
     report = Report("C11", ctx, "R1 for the code-carrying enums with a many-to-one reader (OPCODE, RCODE) every value in the reader's "
                     "image is written back to bits that read as the same value (tables evaluated exhaustively); R2 the TYPE written "
                     "for whatever the parse dispatch builds is the parsed TYPE, for all 65536 codes; R3 len() equals the bytes "
-                    "write_to emits (shared with C04-R1); R4 no writer constructs an error on values the parser can produce.")
+                    "write_to emits (shared with C04-R1); R4 no writer constructs an error on values the parser can produce; R5 class word; "
+                    "R6 the parser lifts the OPT record from the end of the additional section at which the writers put it.")
     B = {}
     for name, q in [("opcode_from", "simple_dns::<OPCODE as From<u16>>::from"), ("rcode_from", "simple_dns::<RCODE as From<u16>>::from"),
                     ("get_flags", "simple_dns::Header::get_flags"), ("encode", "simple_dns::OPT::encode_ttl"),
@@ -158,6 +159,41 @@ def run(ctx):
     # ---- R5: the unicast-response / cache-flush bit and the class survive re-serialisation for every class value
     import c02
     c02.class_word_rule(ctx, report, "C11-R5")
+    # ---- R6: the parser lifts out the OPT record the writers put at the same end of the additional section: the writers
+    # emit header.opt_rr() before (after) the additional records, so the first (last) OPT record of a received message is the
+    # one that comes back in that place; with the other end, a message carrying two OPT records swaps them on every pass
+    import audits
+    import c04
+    pp = prog.find("simple_dns::Packet::parse")
+    report.count()
+    if pp is None:
+        report.lost_anchor("simple_dns::Packet::parse")
+    else:
+        info, why = audits.find_lift(ctx, pp)
+        sides = {}
+        for q in ("simple_dns::Packet::write_to", "simple_dns::Packet::write_compressed_to"):
+            wb = prog.find(q)
+            if wb is None:
+                report.lost_anchor(q)
+                continue
+            order = c04.packet_emission_order(ctx, wb)
+            opt_ix = [i for i, (fn, ty, s) in enumerate(order) if ty == "ResourceRecord" and s is None]
+            add_ix = [i for i, (fn, ty, s) in enumerate(order) if s and s.split(".")[-1] == "additional_records"]
+            if len(opt_ix) == 1 and len(add_ix) == 1:
+                sides[q] = opt_ix[0] < add_ix[0]
+        if info is None or len(sides) != 2:
+            viol(report, "C11-R6", "Packet::parse", "opt-lift", "cannot relate the OPT record the parser lifts out to where the writers put it (%s)" % (
+                why or "OPT / additional_records not located in the writers"))
+        else:
+            for q, before in sorted(sides.items()):
+                if before != info["first"]:
+                    viol(report, "C11-R6", "Packet::parse", "opt-lift-end:" + q.split("::")[-1],
+                         "Packet::parse lifts out the %s OPT record of the additional section but %s writes header.opt_rr() %s the "
+                         "additional records: a received message with two OPT records comes back with them swapped" % (
+                             "first" if info["first"] else "last", q, "before" if before else "after"))
+                else:
+                    report.nontriv("opt lift end:" + q.split("::")[-1])
+            report.sample({"rule": "R6", "parser lifts": "first" if info["first"] else "last", "writers put OPT before additional": sides})
     report.floor("writer functions scanned", n_w, 75)
     report.assumptions += ["field-value equality across parse(write(parse(x))) is not decided (value-level)",
                            "RCODE / OPCODE discriminants as exported by the compiler"]
